@@ -1778,6 +1778,7 @@ class SolveUnc(_BaseODE):
                 pc.A = h * h / 3
                 pc.Ap = h / 2
         if self.unc:
+            self.brb = self.b[self._rb]
             pv = self._el
         else:
             pv = np.ix_(self._el, self._el)
@@ -1879,17 +1880,22 @@ class SolveUnc(_BaseODE):
                     a_rb = la.lu_solve(self.imrb, force[rb], check_finite=False)
             else:
                 a_rb = force[rb]
-            if unc and self.systype is float:
-                b_rb = self.b[self._rb]
-                if b_rb.any():
+            if unc:
+                # complex coefficients: `get_su_eig` reduced `b` to the
+                # elastic modes and kept the rigid-body part in `brb`
+                b_rb = self.b[self._rb] if self.systype is float else self.brb
+                if np.any(b_rb):
                     # damped rigid-body modes: (-w^2 m + i w b) d = F,
-                    # so a = -w^2 d = F / (m - i b / w)  (w != 0)
+                    # so a = -w^2 d = (F / m) / (1 - i (b / m) / w)  (w != 0)
+                    if self.m is None:
+                        im = 1.0
+                    elif self.systype is float:
+                        im = np.ravel(self.invm[self._rb])
+                    else:
+                        im = np.ravel(self.imrb)
                     pvnz = freqw != 0
-                    m_rb = 1.0 if self.m is None else self.m[self._rb][:, None]
                     a_rb = a_rb.astype(complex)
-                    a_rb[:, pvnz] = force[rb][:, pvnz] / (
-                        m_rb - 1j * b_rb[:, None] / freqw[pvnz]
-                    )
+                    a_rb[:, pvnz] /= 1 - 1j * (b_rb * im)[:, None] / freqw[pvnz]
             if "d" in incrb or "v" in incrb:
                 pvnz = freqw != 0
                 if isinstance(rb, slice):
